@@ -187,13 +187,19 @@ func (s *KeyStore) ListKeyRings() (rings []string, err error) {
 		}
 	}()
 
-	rings, err = s.fs.ListAll()
+	paths, err := s.fs.ListAll()
 	if err != nil {
 		s.log.WithError(err).Debug("failed to list key rings")
 		return nil, err
 	}
-	for i := range rings {
-		rings[i] = strings.TrimSuffix(rings[i], keyringSuffix)
+	rings = make([]string, 0, len(paths))
+	for _, path := range paths {
+		if !strings.HasSuffix(path, keyringSuffix) {
+			// Not a key ring: e.g. the temporary "<ring>.keyring.new" of an interrupted update.
+			s.log.WithField("path", path).Debug("ignoring non-keyring entry in key ring listing")
+			continue
+		}
+		rings = append(rings, strings.TrimSuffix(path, keyringSuffix))
 	}
 	return rings, nil
 }
